@@ -423,6 +423,16 @@ fn corr(r: &mut Rng, thorough: bool, o: &mut Out) {
     for len in 0..=k {
         for_all_seqs(&[PathEl::MoveTo(PA)], len, &mut |els| case_views(o, "exhaustive", els));
     }
+    // thorough: every 17th list of length 6
+    if thorough {
+        let mut i = 0u64;
+        for_all_seqs(&[PathEl::MoveTo(PA)], 5, &mut |els| {
+            i += 1;
+            if i % 17 == 5 {
+                case_views(o, "exhaustive-len6-strided", els);
+            }
+        });
+    }
     // other starts: MoveTo(b); a drawing element first; a leading ClosePath (panic of segments)
     let k2 = if thorough { 3 } else { 2 };
     for len in 0..=k2 {
@@ -661,6 +671,10 @@ fn law_reverse(a: &[f64]) -> Option<(String, String)> {
     if !r1.is_empty() && !matches!(r1[0], PathEl::MoveTo(_)) {
         return fail("reverse:no-moveto", format!("{}: reversed path {} does not begin with MoveTo", show(&els), show(&r1)));
     }
+    // no sub-path appears out of nothing (degenerate ones may legitimately be kept)
+    if chunks(&r1).len() > chunks(&els).len() {
+        return fail("reverse:spurious-subpath", format!("{}: {} sub-paths, reversed {} has {}", show(&els), chunks(&els).len(), show(&r1), chunks(&r1).len()));
+    }
     let want: Vec<Chunk> = chunks(&els).into_iter().filter(|c| !c.draw.is_empty()).collect();
     let got: Vec<Chunk> = chunks(&r1).into_iter().filter(|c| !c.draw.is_empty()).collect();
     if want.len() != got.len() {
@@ -798,7 +812,7 @@ fn laws() -> Vec<Law> {
 
 /// exhaustive sweep of the laws on the implementation: every word of length <= n after MoveTo(a)
 fn extra(_r: &mut Rng, thorough: bool, o: &mut Out) {
-    let k = if thorough { 5 } else { 4 };
+    let k = if thorough { 6 } else { 5 };
     let mut count = 0u64;
     let mut reported: Vec<String> = Vec::new();
     for len in 0..=k {
@@ -809,16 +823,14 @@ fn extra(_r: &mut Rng, thorough: bool, o: &mut Out) {
                 if let Some((class, desc)) = law(&a) {
                     if !reported.contains(&class) {
                         reported.push(class.clone());
-                        o.violation(
-                            &class,
-                            desc,
-                            format!(
-                                "{{\"law\":{},\"args\":{},\"bits\":[{}]}}",
-                                crate::util::json_str(name),
-                                crate::util::fmt_fs(&a),
-                                a.iter().map(|x| format!("\"{:016x}\"", x.to_bits())).collect::<Vec<_>>().join(",")
-                            ),
+// shortest witness of its class: put it before the random ones
+                        let input = format!(
+                            "{{\"law\":{},\"args\":{},\"bits\":[{}]}}",
+                            crate::util::json_str(name),
+                            crate::util::fmt_fs(&a),
+                            a.iter().map(|x| format!("\"{:016x}\"", x.to_bits())).collect::<Vec<_>>().join(",")
                         );
+                        o.violations.insert(0, crate::util::Violation { class: class.clone(), desc, input });
                     }
                 }
             }
